@@ -61,6 +61,12 @@ class KPoint:
 
 
 @dataclasses.dataclass
+class Doc:  # an annotated private field
+    name: str
+    _rev: int = 0
+
+
+@dataclasses.dataclass
 class Line:
     a: Point
     b: Point
